@@ -13,7 +13,8 @@ EXPLANATION = (
     'TableGroupBlueprint.build (resolved object, not spelling), parse_table (no columns), locate_table (both keys missed), '
     'Table.__getitem__ by name, TableBlueprint.build (index subject), ReferenceBlueprint.build x4. Reference equality '
     'compares exactly the relationship identity (instance attributes minus dont_compare_fields), so inline and '
-    'standalone duplicates collide; both endpoints of a reference are resolved from their own side only.')
+    'standalone duplicates collide; both endpoints of a reference are resolved from their own side only; the parser stores every '
+    'collected blueprint unconditionally (no structural de-duplication before the database sees it).')
 RULE_TEXT = 'three obligations (present / raises / dominates, plus scans for loop guards) per guard row; one per equality field'
 ASSUMPTIONS = ['decides guard presence, polarity, exception class and dominance on all paths; spelling independence follows from '
                'guards comparing resolved objects (C05), not decided for arbitrary documents']
@@ -26,3 +27,12 @@ def run(ctx, col: Collector):
     reference_equality(ctx, col, 'C06-eq')
     resolution_guards(ctx, col, 'C06-resolve')
     reference_sides(ctx, col, 'C06-sides')
+    # a duplicate can only be rejected if it reaches the database: the parser's collecting functions store every blueprint, never "unless already there"
+    from ..core import guarded
+
+    def collect():
+        from .c01 import dedup_obligations
+        idx = ctx.idx
+        dedup_obligations(ctx, col, 'C06-collect', [idx.func('pydbml.parser.parser', 'PyDBMLParser.parse_blueprint'),
+                                                    idx.func('pydbml.parser.parser', 'PyDBMLParser.build_database')])
+    guarded(col, 'C06-collect', 'collect', collect)
